@@ -127,7 +127,7 @@ func (w *world) runSchedule(specs []spec, prefix []int) (*gate.Controller, []res
 		results[t].nonce, results[t].sent = nonce, body
 		go func() {
 			results[t].resp = stack.Do(w.o.Addr, &stack.Req{Method: "POST", Target: specs[t].k.target + "?n=" + nonce, Body: body,
-				Headers: [][2]string{{"Content-Type", "application/json"}, {"X-Verif-Nonce", nonce}, {"anthropic-version", "2023-06-01"}}})
+				Headers: [][2]string{{"Content-Type", "application/json"}, {"X-Verif-Nonce", nonce}, {"X-Verif-Mine-" + nonce, nonce}, {"anthropic-version", "2023-06-01"}}})
 			done()
 		}()
 	}
@@ -200,6 +200,15 @@ func (w *world) judgeOne(s spec, r result, all []result) (string, string) {
 	for _, o := range all {
 		if o.nonce != r.nonce && o.nonce != "" && bytes.Contains(q.Body, []byte(o.nonce)) {
 			return "foreign-body-bytes", fmt.Sprintf("upstream request of %s contains the nonce of %s", r.nonce, o.nonce)
+		}
+	}
+	// every request carries a header whose *name* is its own: none but the sender's may be on its upstream request
+	if q.Header("X-Verif-Mine-"+r.nonce) != r.nonce {
+		return "header-altered", fmt.Sprintf("client sent X-Verif-Mine-%s: %s, backend received %q", r.nonce, r.nonce, q.Header("X-Verif-Mine-"+r.nonce))
+	}
+	for _, h := range q.Headers {
+		if strings.HasPrefix(strings.ToLower(h[0]), "x-verif-mine-") && !strings.EqualFold(h[0], "X-Verif-Mine-"+r.nonce) {
+			return "foreign-header", fmt.Sprintf("upstream request of %s carries %s: %s, a header only another request sent", r.nonce, h[0], h[1])
 		}
 	}
 	if xm := q.Header("X-Model"); xm != "" && xm != s.model {
